@@ -487,6 +487,7 @@ def child_threads(path, stage, baton, first, step, replay_sched=None):
     sys.path.insert(0, stage)
     vb = ctypes.CDLL(baton, mode=ctypes.RTLD_GLOBAL)
     vb.vb_run.restype = ctypes.c_int
+    vb.vb_exit_on_stall(1)
     import sudachipy  # noqa
     for case in iter_share(path, first, step):
         print(json.dumps({"begin": case["case"]}), flush=True)
@@ -533,7 +534,12 @@ def run_threads(path, stage, baton, jobs, out, replay_sched=None):
             else:
                 results.append(d)
                 current = None
-        if p.returncode != 0 and current is not None:
+        if p.returncode in (4, 5) and current is not None:
+            # the baton watchdog ended the worker: the scheduled thread was blocked (4) or spinning (5) for 30 s
+            results.append({"case": current, "ok": False, "op": 0, "class": "no-progress",
+                            "site": "baton-holder-blocked" if p.returncode == 4 else "thread-spins",
+                            "detail": {"note": "a scheduled thread neither reached a scheduling point nor finished; the worker was ended by the watchdog"}, "stats": {}})
+        elif p.returncode != 0 and current is not None:
             results.append({"case": current, "ok": False, "op": -1, "class": "interpreter-crash",
                             "site": "signal-%d" % (-p.returncode) if p.returncode < 0 else "exit-%d" % p.returncode,
                             "detail": {"stderr": se[-600:]}, "stats": {}})
